@@ -842,6 +842,8 @@ def check_tables(ctx):
 
 
 def check(ctx):
+    from sa.props._lib_h_s35 import structural
+    structural(ctx)
     with ctx.section("model/sender"):
         check_sender(ctx, make_vm(ctx))
     with ctx.section("model/receiver"):
